@@ -32,6 +32,29 @@ CHECKS = {
     "C04": ("E1 tess", "explicit-state enumeration of (state, mask) pairs; per-face and per-cell invariants",
             "Unit normals along right+shift-left or outward through the wall, centroids on the bisector/wall, closure and divergence identities for every constructed cell of every enumerated (state, mask).",
             "R9 wall faces: oracle area/centroid substituted for that single face in the two identities (known finding).", "3/C04"),
+    "C05": ("E1 tess", "explicit-state enumeration of degenerate and near-degenerate input families in a debug-assertions and a release build; totality + C01-C04 verdict functions + every near-tie vertex decision checked against an integer (512-bit) determinant oracle",
+            "Every state of families A (exact dyadic lattices: walls, edges, corners, single, collinear, coplanar, co-spherical subsets; generic pool), B1 (2^-20..2^-50 displacements), B2 (clusters 2^-10..2^-40), B3 (co-spherical integer shells, co-circular sets), C (thirds lattice) and the 4^3 lattice with <= 1 deviation is built through Voronoi::build, VoronoiIntegrator::build and build_partial (all masks, n <= 3), in both build kinds: no panic, finite values, C01-C04 verdicts, and 'vertex removed <=> exact determinant < 0' for every vertex the floating point filter leaves undecided (clip-by-clip replay through the hook wrappers).",
+            "Known findings R5 (explicit lists of (clause, state id), one per build kind) and R9 (selector). Families A, B3 and L64 have no allowed failure. Inputs outside the families are not covered.", "3/C05"),
+    "C06": ("E1 tess", "explicit-state enumeration of periodic states; differential oracle (reflective build of the 3^d-fold replicated set), structural invariants, translation transitions",
+            "For every periodic state (n >= 1, incl. n = 1, 2): central block of the reflective tessellation of the replicated set equals the periodic result (volumes, centroids, face maps with image offsets); no boundary face along periodic axes; every shift is an exact lattice vector, absent iff zero, and places the right generator next to the face; 11-14 translations (wrapped) leave every cell measure and per-neighbour face area unchanged.",
+            "The replicated comparison uses the library itself as oracle (the independent O-cell comparison of periodic states with +-2 images is part of C01); n <= 3 (quick) / 4 (thorough) for the replicated build.", "3/C06"),
+    "C07": ("E1 tess", "explicit-state enumeration of the Boolean lattice of masks over every state; each node compared bitwise with the full build",
+            "For every state and every mask (n <= 4 quick / 5 thorough; deviation-bounded masks above): selected cells bitwise equal to the full build (volume, centroid, loc, safety radius; ConvexCells bitwise through the integrator route), same face map, unselected cells zero, ownership rules of stored faces and of the symmetric face integrals, get_cell_at/cells_iter vs mask.",
+            "Mask-flip edges are covered by transitivity (every node is compared with the same full build).", "3/C07"),
+    "C08": ("E1 tess", "explicit-state enumeration of 1D/2D states; transitions = rewriting unused coordinates (all single deviations, all pairs with extreme values); closed form; 3D slab differential",
+            "Bitwise invariance of the result under every rewrite of an unused coordinate of a generator, the anchor or the width (values incl. -0.0, 1e300, NaN, inf), 1D closed form (lengths, centroids, two unit faces, neighbours and shifts), 2D = 3D slab, all reported normals/shifts inside the active subspace.",
+            "R9 excused for wall faces through a generator on the boundary.", "3/C08"),
+    "C12": ("E1 tess", "explicit-state enumeration of (state, mask, route); structural invariants of the index structure",
+            "Offsets = prefix sums, total = array length, every face listed by left, by right iff unshifted, by no other cell; neighbour_ids = other sides of listed non-boundary non-periodic faces, no duplicates, never self, for constructed and unconstructed cells; routes: direct, From<&VoronoiIntegrator>, with faces.", "Index bookkeeping only; geometry is C01/C03.", "3/C12"),
+    "C13": ("E1 tess", "explicit-state enumeration of (state, mask); route-vs-route relations, bitwise",
+            "Voronoi::from(&integrator) bitwise equals the direct build (all public accessors), cell integrals = stored values in index order, symmetric face integrals = face list in order, sym = non-sym minus faces of constructed lower-index unshifted neighbours (as sequences), with-faces vs without-faces to tolerance.", "R9 excused in the with/without-faces comparison only.", "3/C13"),
+    "C14": ("E1 tess", "explicit-state enumeration of (state, mask, with/without faces); recording integrals implemented in this downstream crate; moment oracle",
+            "The harness is a downstream crate implementing CellIntegral/FaceIntegral (compile-time witness of the first clause). For every constructed cell: apex = generator (bitwise), signed monomial sums (degree <= 2) = moments of the O-cell, results in index order under every mask; every base triangle lies in its face plane and signed areas sum to the face area; with/without faces agree.",
+            "Per-cell data: the blanket impl fixes Data = () for every downstream integral, so data alignment is unobservable; the *_with_data entry points are checked to return the same sequences. Any downstream integral is a fold over the recorded sequence.", "3/C14"),
+    "C15": ("E1 tess", "explicit-state enumeration of 3D (state, mask) pairs; polytope axioms on every cell; all type-state operation sequences up to depth 4",
+            "Vertices on their three planes and inside all half-spaces, each in exactly three faces; faces planar, simple, convex, counter-clockwise about the inward normal, area = area integral = oracle; Euler; accessors agree with face integrals; discard_faces after with_faces is the identity; every sequence of {with_faces, discard_faces, clone, integrals} of length <= 4 leaves the observations of its type-state unchanged; with_faces on 1D/2D is rejected with the documented message.", "R9 excused for the area integral of wall faces through the generator.", "3/C15"),
+    "C16": ("E1 tess", "explicit-state search over the add-a-generator graph: nodes = generator sets, edges = S -> S + p (alphabet points and ring points around every safety ball)",
+            "Node invariant: safety radius >= 2 x farthest oracle vertex (active subspace) and >= distance to every face neighbour. Edge relations: a generator added outside the safety ball (all periodic images) leaves the cell unchanged (measure, centroid, face map); no cell grows.", "Ring points that hit the R5 class (panic) are counted, not judged.", "3/C16"),
 }
 
 NOT_YET = {
